@@ -25,3 +25,56 @@ Theorem C02_failed_harvest_conserves : forall t h c q,
   cnt t (harvest_tags h) + cnt t (tags (rq_items q)).
 Proof. exact merge_failed_ok. Qed.
 Print Assumptions C02_failed_harvest_conserves.
+
+From Verif Require Import ProcInv4 ProcInv5 ProcInv6.
+
+(* Attempt bounds.  `attempts ops c t`: the number of requests of category c, among ALL requests emitted by the
+   history ops (final-flush requests included), that carried tag t.
+   A unit of metric data is in at most 1 + FailedMetricAttemptsLimit = 6 requests, on every history with
+   distinct tags, whatever fails and however deliveries overlap (the metric table's counter is max-merged). *)
+Theorem C02_attempt_bound_metrics : forall ops t,
+  distinct_tags ops -> attempts ops CMetrics t <= 6.
+Proof. exact attempt_bound_metrics. Qed.
+Print Assumptions C02_attempt_bound_metrics.
+
+(* A unit of event data (custom, error, transaction, span, log events) is in at most
+   1 + FailedEventsAttemptsLimit = 11 requests of its category, on every history in which deliveries of that
+   category to one run do not overlap (`no_overlap`: in every state the history passes through, the outstanding
+   requests of that category for one run id belong to ONE tick; the two halves of a split payload are one
+   delivery) and the collector does not issue a run id twice (`distinct_runs`). *)
+Theorem C02_attempt_bound_events : forall ops c t,
+  is_event c = true -> distinct_tags ops -> distinct_runs ops -> no_overlap ops c -> attempts ops c t <= 11.
+Proof. exact attempt_bound_events. Qed.
+Print Assumptions C02_attempt_bound_events.
+
+(* Both provisos are needed.  With overlapping deliveries (history `overlapping`: 20 requests carry tag 1) ... *)
+Theorem C02_attempt_bound_events_refuted :
+  exists ops c t, is_event c = true /\ distinct_tags ops /\ distinct_runs ops /\ attempts ops c t > 11.
+Proof. exact attempt_bound_events_refuted. Qed.
+Print Assumptions C02_attempt_bound_events_refuted.
+
+(* ... and with a re-issued run id even without overlap (history `reissued_events`). *)
+Theorem C02_attempt_bound_events_reissue_refuted :
+  exists ops c t, is_event c = true /\ distinct_tags ops /\ no_overlap ops c /\ attempts ops c t > 11.
+Proof. exact attempt_bound_events_reissue_refuted. Qed.
+Print Assumptions C02_attempt_bound_events_reissue_refuted.
+
+(* What a failed harvest request of a held run does with its data.  `saved q f`: the status is retryable
+   (FRetry: 408, 429, 500, 503), the category is retryable (metrics and the five event categories) and the
+   payload has not exhausted its attempts (rq_failed q + 1 <= 5 resp. 10).
+   If saved, the tags of the request are afterwards in the run's current harvest, except those refused by the
+   capacity limit (recorded with reason RCapacity), and nothing else is given up; otherwise the harvest is
+   unchanged and ALL tags of the request are given up (not retryable / attempts exhausted). *)
+Theorem C02_save_iff : forall s q f a c,
+  lookupN (rq_run q) (p_runs s) = Some a -> a < length (p_ahs s) -> rq_kind q = RHarvest c ->
+  let s' := fst (harvest_error s q f) in
+  let h := ah_h (get_ah s a) in
+  let h' := ah_h (get_ah s' a) in
+  (saved q f = true ->
+     exists refused, g_dropped s' = g_dropped s ++ map (fun t => (t, RCapacity)) refused /\
+       forall t, cnt t (harvest_tags h') + cnt t refused = cnt t (harvest_tags h) + cnt t (tags (rq_items q))) /\
+  (saved q f = false ->
+     h' = h /\ exists why, (why = RNotRetryable \/ why = RGivenUp) /\
+       g_dropped s' = g_dropped s ++ map (fun t => (t, why)) (tags (rq_items q))).
+Proof. exact save_iff. Qed.
+Print Assumptions C02_save_iff.
